@@ -615,7 +615,7 @@ fn explore_seg(seed: u64, steps: usize) -> Result<(), String> {
                     let expired_yielded = got.iter().any(|g| model.iter().any(|m| m.2.id == *g && m.2.exp < time));
                     let live_wrong = { let gl: Vec<i32> = got.iter().cloned().filter(|g| !model.iter().any(|m| m.2.id == *g && m.2.exp < time)).collect(); gl != want };
                     let _ = expired_yielded;
-                    return Err(format!("[C03{}{}] {}-> {:?} expected {:?}", if live_wrong { ",C15" } else { "" }, if hist.contains("clear(); ") { ",C12" } else { "" }, hist, got, want));
+                    return Err(format!("[C03{}] {}-> {:?} expected {:?}", if live_wrong { ",C15" } else { "" }, hist, got, want));
                 }
                 if whole {
                     // C16: after a fully consumed whole-domain query only copies of unexpired values are stored
@@ -897,7 +897,8 @@ impl Subject for PSeg {
     fn apply(&mut self, op: &POp, time: i32) {
         use i_tree::seg::exp::{SegExpCollection, SegRange};
         match *op {
-            POp::Ins(k, e, v) => self.0.insert_by_range(SegRange { min: k, max: (k + (v % 23)).min(63) }, FX { id: v, exp: e }),
+            // every seventh value spans the whole domain (it is stored in the root chunk)
+            POp::Ins(k, e, v) => self.0.insert_by_range(if v % 7 == 0 { SegRange { min: 0, max: 63 } } else { SegRange { min: k, max: (k + (v % 23)).min(63) } }, FX { id: v, exp: e }),
             POp::Query(a, b, partial) => { if partial { let _ = self.0.iter_by_range(SegRange { min: a, max: b }, time).take(1).count(); } else { let _ = self.0.iter_by_range(SegRange { min: a, max: b }, time).count(); } }
             POp::Clear => self.0.clear(),
             _ => {}
@@ -928,7 +929,7 @@ fn gen_script(seed: u64, steps: usize, nkeys: i32, expiring: bool, seg: bool) ->
         if seg {
             let a = rng.below(64) as i32; let b = rng.below(64) as i32; let (a, b) = if a <= b { (a, b) } else { (b, a) };
             match op {
-                0..=4 => { vseq += 1; out.push((POp::Ins(a, time + rng.below(5) as i32 - 1, vseq), time)); }
+                0..=4 => { vseq += 1; let e = if rng.below(8) == 0 { i32::MAX } else { time + rng.below(5) as i32 - 1 }; out.push((POp::Ins(a, e, vseq), time)); } // (some values never expire)
                 5..=9 => out.push((POp::Query(a, b, op == 9), time)),
                 10 => out.push((POp::Query(0, 63, false), time)),
                 _ => { if rng.below(4) == 0 { out.push((POp::Clear, time)); } }
@@ -1007,6 +1008,57 @@ fn panic_history<S: Subject>(seed: u64, steps: usize, nkeys: i32) -> Result<u64,
     Ok(injections)
 }
 
+// C12: after clear() a collection is observationally a new one.  The same pseudo-random script runs on one instance; at every
+// Clear a freshly constructed twin is started, and from then on both get the same operations (on odd seeds the caller's clock
+// restarts from zero after the clear): their observable contents must agree after every step
+fn clear_twin_history<S: Subject>(seed: u64, steps: usize, nkeys: i32) -> Result<u64, String> {
+    let script = gen_script(seed, steps, nkeys, S::EXPIRING, S::NAME == "SegExpTree");
+    let mut a = S::fresh(seed);
+    let mut twin: Option<S> = None;
+    let mut shift = 0i32;
+    let mut hist = format!("{} seed {}: ", S::NAME, seed);
+    let mut compared = 0u64;
+    for (op0, t0) in script.iter() {
+        let time = *t0 - shift;
+        let op = match *op0 { POp::Ins(k, e, v) => POp::Ins(k, if S::EXPIRING && e != i32::MAX { e - shift } else { e }, v), o => o };
+        h!(hist, "{:?}@t{}; ", op, time);
+        a.apply(&op, time);
+        if let POp::Clear = op {
+            twin = Some(S::fresh(seed.wrapping_add(1)));
+            if S::EXPIRING && seed % 2 == 1 { shift = *t0; } // the clock restarts after the clear
+            if let Err(e) = a.valid() { return Err(format!("[C12] {}-> right after clear() the collection is not valid: {}", hist, e)); }
+            continue;
+        }
+        if let Some(b) = twin.as_mut() {
+            b.apply(&op, time);
+            let (ca, cb) = (a.contents(time, nkeys), b.contents(time, nkeys));
+            compared += 1;
+            if ca != cb { return Err(format!("[C12] {}-> the cleared collection shows {:?}, a new one given the same operations since the clear shows {:?}", hist, ca, cb)); }
+        }
+    }
+    Ok(compared)
+}
+
+fn explore_clear(which: &str, seeds: u64, steps: usize) -> Result<(u64, u64), String> {
+    let mut n = 0u64; let mut c = 0u64;
+    for seed in 1..=seeds {
+        note("");
+        let nkeys = if seed % 4 == 0 { 24 } else { 8 };
+        c += match which {
+            "key-tree" => clear_twin_history::<PKeyTree>(seed, steps, nkeys)?,
+            "key-list" => clear_twin_history::<PKeyList>(seed, steps, nkeys)?,
+            "map-tree" => clear_twin_history::<PMapTree>(seed, steps, nkeys)?,
+            "map-list" => clear_twin_history::<PMapList>(seed, steps, nkeys)?,
+            "set-tree" => clear_twin_history::<PSetTree>(seed, steps, nkeys)?,
+            "set-list" => clear_twin_history::<PSetList>(seed, steps, nkeys)?,
+            "seg" => clear_twin_history::<PSeg>(seed, steps, nkeys)?,
+            _ => return Err("unknown collection".to_string()),
+        };
+        n += 1;
+    }
+    Ok((n, c))
+}
+
 fn explore_panic(which: &str, seeds: u64, steps: usize) -> Result<(u64, u64), String> {
     let mut inj = 0u64;
     for seed in 1..=seeds {
@@ -1069,6 +1121,28 @@ fn main() {
                 Ok(Err(e)) => { println!("{{\"ok\": false, \"counterexample\": {:?}}}", e); std::process::exit(1); }
                 Err(_) => { std::process::exit(1); }
             }
+        }
+        Some("explore-clear") => {
+            let seeds: u64 = args[3].parse().unwrap();
+            let steps: usize = args[4].parse().unwrap();
+            std::panic::set_hook(Box::new(|info| {
+                let h = HIST.lock().map(|g| g.clone()).unwrap_or_default();
+                let msg = format!("[C10] {}-> the real code panicked: {}", h, info).replace('\n', " ");
+                println!("{{\"ok\": false, \"counterexample\": {:?}}}", msg);
+                use std::io::Write; let _ = std::io::stdout().flush();
+            }));
+            let which = args[2].clone();
+            let all = ["key-tree", "key-list", "map-tree", "map-list", "set-tree", "set-list", "seg"];
+            let list: Vec<&str> = if which == "all" { all.to_vec() } else { vec![which.as_str()] };
+            let mut total = (0u64, 0u64);
+            for w in list {
+                match std::panic::catch_unwind(|| explore_clear(w, seeds, steps)) {
+                    Ok(Ok((h, c))) => { total.0 += h; total.1 += c; }
+                    Ok(Err(e)) => { println!("{{\"ok\": false, \"counterexample\": {:?}}}", e); std::process::exit(1); }
+                    Err(_) => { std::process::exit(1); }
+                }
+            }
+            println!("{{\"ok\": true, \"histories\": {}, \"comparisons\": {}}}", total.0, total.1);
         }
         Some("explore-panic") => {
             let seeds: u64 = args[3].parse().unwrap();
